@@ -14,6 +14,9 @@ CFG = {
         "Leptos.Reactive.C02_self_feedback_witness",
         "Leptos.Reactive.C02_lost_update_witness",
         "Leptos.Reactive.C02_effects_converge_full_old_false",
+        "Leptos.Reactive.C02_wake_order",
+        "Leptos.Reactive.C02_wake_order_inv",
+        "Leptos.Reactive.C02_subs_order_kept",
     ],
     "harness_pkg": "hx-c01",
     "harness_bin": "c02",
